@@ -295,7 +295,9 @@ class ConciliationMonitor(Monitor):
                 conflicts = peek(w, inst.nick, 'supvisors.get_conflicts')
             except Fault:
                 continue
-            busy = state['starting_jobs'] or state['stopping_jobs']
+            # the jobs of the Master itself (the API lists the identifiers of all the instances that have jobs: a
+            # sequence driven by another instance does not keep the Master from conciliating)
+            busy = inst.identifier in state['starting_jobs'] or inst.identifier in state['stopping_jobs']
             managed = [c for c in conflicts if self.run.model.get(c['application_name'], {}).get('managed')]
             self.count('detection_samples')
             key = (inst.nick, inst.inc)
@@ -348,8 +350,8 @@ class ConciliationMonitor(Monitor):
                 self.count('final_groups_view_differs_from_truth')
                 continue
             self.count('final_groups_evaluated')
-            busy = vws[master]['starting_jobs'] or vws[master]['stopping_jobs']
             minst = w.instances[master]
+            busy = minst.identifier in vws[master]['starting_jobs'] or minst.identifier in vws[master]['stopping_jobs']
             if state == 'CONCILIATION' and w.now - self.entered.get((master, minst.inc), w.now) < 3 * TICK:
                 # the conciliation has just begun
                 self.count('final_groups_conciliation_just_begun')
